@@ -62,13 +62,13 @@ class RawModel(abc.ABC):
 
     def check_detachable(self) -> None:
         """Raises ValueError if detach() would refuse this model, without detaching it."""
-        if self.token_store and (
+        if self.token_store is not None and (
                 self.first_token is not self.token_store.get_first() or
                 self.last_token is not self.token_store.get_last()):
             raise ValueError('Cannot reuse node. Consider making a copy.')
 
     def detach(self) -> list['RawTokenModel']:
-        if not self.token_store:
+        if self.token_store is None:
             return []
         self.check_detachable()
         tokens = list(self.token_store)
